@@ -1,13 +1,21 @@
 #!/bin/sh
-# run every seeded change (or the ones given) against the quick check of the property it breaks, in the mutant lab
-# usage: tools/seeded_matrix.sh [id…]   -> lines "<id> <prop> CAUGHT|MISSED <summary>"
+# run every seeded change (or the ones given) against the quick check of the property it breaks
+# (plus the checks named in seeded/<id>/checks.txt, if present), in the mutant lab
+# usage: tools/seeded_matrix.sh [id…]   -> lines "<id> <prop> CAUGHT by <checks>|MISSED | <summary>"
 cd "$(dirname "$0")/.."
 tools/mutant_lab.sh sync
 ids="$@"; [ -z "$ids" ] && ids=$(ls seeded)
 for id in $ids; do
+  [ -f seeded/$id/meta.json ] || continue
   prop=$(python3 -c "import json;print(json.load(open('seeded/$id/meta.json'))['property'])")
-  out=$(tools/mutant_lab.sh run /verif/seeded/$id/patch.diff $prop 2>&1)
-  if echo "$out" | grep -q "^VIOLATION property=$prop"; then r=CAUGHT; else r=MISSED; fi
-  nf=""; echo "$out" | grep -q "no-failing-input-found" && nf=" (no-failing-input-found)"
-  echo "$id $prop $r$nf | $(echo "$out" | tail -1 | cut -c1-160)"
+  props=$prop; [ -f seeded/$id/checks.txt ] && props=$(cat seeded/$id/checks.txt)
+  out=$(tools/mutant_lab.sh run /verif/seeded/$id/patch.diff $props 2>&1)
+  by=""
+  for p in $props; do
+    if echo "$out" | grep -q "^VIOLATION property=$p"; then
+      if echo "$out" | grep "^VIOLATION property=$p" | grep -qv "no-failing-input-found"; then by="$by $p"; else by="$by $p(no-failing-input-found)"; fi
+    fi
+  done
+  if [ -n "$by" ]; then r="CAUGHT by$by"; else r=MISSED; fi
+  echo "$id $prop $r | $(echo "$out" | grep ' quick: ' | cut -d, -f2-3,5-7 | tr '\n' ';' | cut -c1-220)"
 done
